@@ -6,6 +6,8 @@ BUNDLES = ['B_SE3_SO2_R3_d', 'B_SGal3_SE2_SE23_SO3_R1_d']
 ALL_BUNDLES = ['B_SE3_SO2_R3_d', 'B_SGal3_SE2_SE23_SO3_R1_d', 'B_R2_SO3_SO3_SE2_d', 'B_SE23_SGal3_d',
                'B_SO2_d', 'B_R9_d', 'B_SE2x3_d', 'B_SO2_SGal3_SO2_d']
 
+RAT_GROUPS = ['SO2r', 'SE2r', 'SO3r', 'SE3r', 'SE_2_3r', 'SGal3r', 'R3r', 'B_SE3_SO2_R3_SE2_SE23_r', 'B_SGal3_SO3_r']
+
 ASSUME_ORACLE = [
     'reference model: documented matrix layout of each group + scaled Taylor matrix exponential in long double / 50-digit boost cpp_bin_float (engine/vf_ref.cpp), independent of manif',
     'Eigen dense arithmetic on long double / cpp_bin_float_50, libm long double, rapidcheck 0.x generators',
@@ -19,6 +21,9 @@ PROPS = {
         'stages': [
             {'src': 'C01.cpp', 'configs': D_GROUPS + ['R1d', 'R7d'] + F_GROUPS + ALL_BUNDLES,
              'cases': {'quick': 8000, 'thorough': 300000}, 'shards': {'quick': 1, 'thorough': 2}},
+            {'src': 'C01_rat.cpp', 'configs': RAT_GROUPS, 'tag': '-exact',
+             'cases': {'quick': 1500, 'thorough': 50000}, 'shards': {'quick': 1, 'thorough': 2},
+             'case_scale': {'B_SE3_SO2_R3_SE2_SE23_r': 0.3}},
         ],
     },
     'C02': {
@@ -52,6 +57,16 @@ PROPS = {
             {'src': 'C05.cpp', 'configs': D_GROUPS + ['SE2f', 'SE3f'] + BUNDLES,
              'cases': {'quick': 2500, 'thorough': 60000}, 'shards': {'quick': 1, 'thorough': 2},
              'case_scale': {'B_SE3_SO2_R3_d': 0.3, 'B_SGal3_SE2_SE23_SO3_R1_d': 0.08, 'SGal3d': 0.5}},
+        ],
+    },
+    'C07': {
+        'rule': 'three tangents and a scalar: floating (strata of 1.3) and exact rational (numerators up to 1e6 x 1e9, denominators 1..1000003); generator index over the whole int range (INT_MIN, -1000, -1, 0..DoF+1, 12345, INT_MAX); non-trivial: a and b have >= 2 non-zero components in different component groups',
+        'assumptions': ['independent generator table engine/vf_ref.cpp (documented bases)', 'exact scalar vf::Rat = boost cpp_rational with a sticky inexact bit (engine/vf_rat.h): equality is exact equality',
+                        'floating configurations: tolerance 2^12 u relative to the product of operand magnitudes'],
+        'stages': [
+            {'src': 'C07.cpp', 'configs': D_GROUPS + ['R1d', 'SE3f', 'SGal3f', 'SE2f'] + ALL_BUNDLES + RAT_GROUPS,
+             'cases': {'quick': 3000, 'thorough': 100000}, 'shards': {'quick': 1, 'thorough': 2},
+             'case_scale': {'B_SE3_SO2_R3_SE2_SE23_r': 0.2, 'B_SGal3_SO3_r': 0.3, 'SGal3r': 0.5, 'SE_2_3r': 0.5}},
         ],
     },
     'C06': {
